@@ -693,15 +693,27 @@ def punct_cause(case):
     return "plain"
 
 
+def bare_gaps(lang, ms):
+    """table.feature labels of the bare pronouns (at any depth) whose lexicon features disagree with their table"""
+    res = []
+    for m in ms:
+        if m["t"] == "bpro":
+            res += bare_lexicon_gap(lang, m["lem"])
+        elif m["t"] == "nest":
+            res += bare_gaps(lang, m["ms"])
+    return res
+
+
 def agree_cause(case):
     n = len(case["members"])
     if case["role"] == "attr":
         return "plain"
-    if has_nested(case):
-        return "single-nested" if n == 1 else "nested-coordination-not-counted"
-    gaps = sorted(g for m in case["members"] if m["t"] == "bpro" for g in bare_lexicon_gap(case["lang"], m["lem"]))
+    # root cause first: a bare pronoun whose lexicon entry disagrees with its declension table, whatever the shape
+    gaps = sorted(bare_gaps(case["lang"], case["members"]))
     if gaps:
         return "bare-pronoun-" + gaps[0]
+    if has_nested(case):
+        return "single-nested" if n == 1 else "nested-coordination-not-counted"
     return "plain"
 
 
